@@ -104,6 +104,13 @@ func NewSparseFile(name string, idx Index, s Store, opt SparseFileOptions) (*Spa
 		}
 	}
 
+	// The sparse file was just (re-)initialized. A state file left over from an
+	// earlier incarnation of it no longer describes it and must not be picked up
+	// by a later start, replace it with the current (blank) state.
+	if err := sf.WriteState(); err != nil {
+		return nil, err
+	}
+
 	return sf, nil
 }
 
